@@ -154,11 +154,12 @@ def run(overlay, names, timeout_s, jobs, mem_gb, log_path, extra_args=()):
 PLAYBACK_RE = re.compile(r"```\s*\n(.*?)```", re.S)
 
 
-def concrete_playback(overlay, name, timeout_s, mem_gb, log_path):
+def concrete_playback(overlay, name, timeout_s, mem_gb, log_path, extra_args=()):
     """Re-run one failing harness with concrete playback; return [{kind, check, test}] for every failed
     non-cover check (the solver's assignment as a unit test over the real harness body)."""
     cmd = ["cargo", "kani", "--target-dir", TARGET, "-Z", "stubbing", "-Z", "unstable-options", "-Z", "concrete-playback",
            "--concrete-playback=print", "--harness-timeout", "%ds" % timeout_s, "--exact", "--harness", PREFIX + name]
+    cmd += list(extra_args)
     with open(log_path, "w") as log:
         _run_capped(cmd, overlay, log, mem_gb)
     with open(log_path, errors="replace") as fh:
@@ -176,7 +177,7 @@ def concrete_playback(overlay, name, timeout_s, mem_gb, log_path):
     return out
 
 
-def native_playback(overlay, harness_file_rel, test_src, log_path, timeout_s=900):
+def native_playback(overlay, harness_file_rel, test_src, log_path, timeout_s=900, extra_args=()):
     """Append the generated unit test to the harness' module and run it natively (real std, no stubs).
     Returns 'reproduced' | 'not-reproduced' | 'error'."""
     path = os.path.join(overlay, harness_file_rel)
@@ -191,7 +192,7 @@ def native_playback(overlay, harness_file_rel, test_src, log_path, timeout_s=900
             fh.write(orig + "\n" + test_src + "\n")
         env = _env()
         env["CARGO_TARGET_DIR"] = os.path.join(CACHE, "playback-target")
-        cmd = ["cargo", "kani", "playback", "-Z", "concrete-playback", "--", tname]
+        cmd = ["cargo", "kani", "playback", "-Z", "concrete-playback"] + list(extra_args) + ["--", tname]
         try:
             with open(log_path, "w") as log:
                 p = subprocess.run(cmd, cwd=overlay, env=env, stdout=log, stderr=subprocess.STDOUT, timeout=timeout_s)
